@@ -23,6 +23,8 @@ package main
 
 import (
 	"fmt"
+	"os"
+	"path/filepath"
 	"math/rand"
 	"runtime"
 	"strconv"
@@ -169,7 +171,7 @@ func (m *c07Sched) joinTaker() string {
 	defer func() { m.taker = nil }()
 	switch {
 	case r == "blocked":
-		atomic.AddInt32(&c07Lost, 1)
+		c07NoteLost()
 		return " take=blocked"
 	case r != "ok":
 		return " take=panic"
@@ -182,15 +184,47 @@ func (m *c07Sched) joinTaker() string {
 // three times the remaining cases of the run use short waits so that a failing run still ends in reasonable time.
 var c07Lost int32
 
+// Shrinking and replaying run every candidate in a NEW harness process, which would start again with the generous
+// waits.  Once three loss events have been seen, a marker file is left next to the harness binary — only inside the
+// per-run directory `.build/run-<prop>-<pid>/` that the check deletes at its end — and later processes of the same
+// check run start with the short waits.
+func c07MarkerPath() string {
+	exe, err := os.Executable()
+	if err != nil || !strings.HasPrefix(filepath.Base(filepath.Dir(exe)), "run-") {
+		return ""
+	}
+	return filepath.Join(filepath.Dir(exe), "c07-broken.marker")
+}
+
+func c07NoteLost() {
+	if atomic.AddInt32(&c07Lost, 1) == 3 {
+		if p := c07MarkerPath(); p != "" {
+			os.WriteFile(p, []byte("three loss events seen in this check run\n"), 0o644)
+		}
+	}
+}
+
+func init() {
+	if p := c07MarkerPath(); p != "" {
+		if _, err := os.Stat(p); err == nil {
+			atomic.StoreInt32(&c07Lost, 10)
+		}
+	}
+}
+
 func c07WaitDur() time.Duration {
-	if atomic.LoadInt32(&c07Lost) >= 3 {
+	if n := atomic.LoadInt32(&c07Lost); n >= 10 {
+		return 100 * time.Millisecond // the tree has shown itself broken ten times: just get through the rest
+	} else if n >= 3 {
 		return 400 * time.Millisecond
 	}
 	return 3 * time.Second
 }
 
 func c07IdleDur() time.Duration {
-	if atomic.LoadInt32(&c07Lost) >= 3 {
+	if n := atomic.LoadInt32(&c07Lost); n >= 10 {
+		return 500 * time.Millisecond
+	} else if n >= 3 {
 		return 1500 * time.Millisecond
 	}
 	return 6 * time.Second
@@ -209,7 +243,7 @@ func (m *c07Sched) sync() {
 	m.q.GetChannel() // posts a token
 	if !m.ctl.WaitAt("*", c07PtWoke, c07WaitDur()) {
 		m.broken = true
-		atomic.AddInt32(&c07Lost, 1)
+		c07NoteLost()
 		return
 	}
 	m.lstate = 1
@@ -334,7 +368,7 @@ func (m *c07Sched) step(tok string) (out string) {
 		if poolCount > 0 {
 			if !m.ctl.WaitAt("*", c07PtPolled, c07WaitDur()) {
 				m.broken = true
-				atomic.AddInt32(&c07Lost, 1)
+				c07NoteLost()
 				return "lost-loader"
 			}
 			m.lstate = 2
@@ -358,7 +392,7 @@ func (m *c07Sched) step(tok string) (out string) {
 		if m.passLeft > 0 {
 			if !m.ctl.WaitAt("*", c07PtPolled, c07WaitDur()) {
 				m.broken = true
-				atomic.AddInt32(&c07Lost, 1)
+				c07NoteLost()
 				return "moved lost-loader"
 			}
 			m.passLeft--
@@ -385,7 +419,7 @@ func c07SchedRun(c, b int, steps []string) string {
 	m.handle = q.GetChannel() // also posts the first token
 	if !ctl.WaitAt("*", c07PtWoke, c07WaitDur()) {
 		m.broken = true
-		atomic.AddInt32(&c07Lost, 1)
+		c07NoteLost()
 	}
 	m.lstate = 1
 	outs := make([]string, 0, len(steps))
@@ -696,7 +730,7 @@ waitProducers:
 		}
 	}
 	if stranded {
-		atomic.AddInt32(&c07Lost, 1)
+		c07NoteLost()
 	}
 	if res == "" && stranded {
 		res = fmt.Sprintf("viol stranded delivered=%d of %d accepted, no progress for %v with consumers calling %s", del, acc, idleDur, mode)
@@ -904,7 +938,7 @@ func c07ChqStress(capacity, p, k, n int, mode string, seed int64) string {
 	}
 	close(stop)
 	if stranded {
-		atomic.AddInt32(&c07Lost, 1)
+		c07NoteLost()
 		// drain so that blocked producers can leave, then give up on them
 		go func() {
 			for range ch {
